@@ -117,5 +117,9 @@ Constrained(c) ==
     \cup (IF c.truth.known /\ c.truth.wrist_ok /\ \E i \in 1..Len(qs) : ~\E k \in 1..Len(c.free) : eq(qs[i], c.free[k])
           THEN {"C08:answer-not-among-unconstrained"} ELSE {})
 
-Contract(c) == Sound(c) \cup Complete(c) \cup Ordered(c) \cup FiveDofOk(c) \cup Constrained(c)
+\* ---- C16: through a parallelogram coupling every answer still maps back onto the pose ----
+Coupled(c) ==
+  IF c.pgram /\ "C01:answer-misses-pose" \in Sound(c) THEN {"C16:answer-misses-pose-through-coupling"} ELSE {}
+
+Contract(c) == Sound(c) \cup Complete(c) \cup Ordered(c) \cup FiveDofOk(c) \cup Constrained(c) \cup Coupled(c)
 =============================================================================
